@@ -6,6 +6,8 @@ import EvoModel.Lemmas.SO3
 import EvoModel.Model.Lie
 import Mathlib.Algebra.Order.Ring.Rat
 import Mathlib.Tactic.NormNum
+import Mathlib.Analysis.SpecialFunctions.Complex.Arg
+import Mathlib.Analysis.SpecialFunctions.Trigonometric.Inverse
 namespace Evo
 
 set_option linter.unusedSectionVars false
@@ -147,4 +149,31 @@ theorem isClose_zero_iff (a : ℚ) : isClose a 0 = true ↔ |a| ≤ 1 / 1000000 
   rw [this, sub_zero]
 
 end Lie
+
+/-! ### the real-valued layer: `atan2`, the rotation angle -/
+section real
+open Real
+
+/-- `math.atan2(y, x)`: the argument of `x + y·i`, in `(−π, π]`, `atan2(0, 0) = 0` -/
+noncomputable def atan2 (y x : ℝ) : ℝ := Complex.arg (⟨x, y⟩ : ℂ)
+
+theorem atan2_cos_sin (θ : ℝ) (h : θ ∈ Set.Ioc (-π) π) : atan2 (sin θ) (cos θ) = θ := by
+  unfold atan2
+  have : (⟨cos θ, sin θ⟩ : ℂ) = Complex.cos θ + Complex.sin θ * Complex.I := by
+    apply Complex.ext <;> simp [← Complex.ofReal_cos, ← Complex.ofReal_sin]
+  rw [this]; exact Complex.arg_cos_add_sin_mul_I h
+
+theorem atan2_range (y x : ℝ) (hy : 0 ≤ y) : 0 ≤ atan2 y x ∧ atan2 y x ≤ π := by
+  unfold atan2
+  exact ⟨Complex.arg_nonneg_iff.mpr hy, Complex.arg_le_pi _⟩
+
+theorem atan2_eq_zero_iff (y x : ℝ) : atan2 y x = 0 ↔ 0 ≤ x ∧ y = 0 := by
+  unfold atan2; rw [Complex.arg_eq_zero_iff]
+
+/-- evo's rotation angle between `a` and `b` (`so3_log_angle(relative_so3(a, b))` in exact
+arithmetic): `atan2(√s², c)` of the angle core -/
+noncomputable def angleR (a b : M3 ℝ) : ℝ :=
+  atan2 (√((relSo3 a b).angleCore.2)) (relSo3 a b).angleCore.1
+
+end real
 end Evo
